@@ -16,7 +16,7 @@ TRUSTED = [
     "the Legendre recurrence and Legendre's formula with primecount::pi",
     "harness ops_phi.cpp calls primecount::phi (public, internal with threads), primecount_phi, phi_tiny",
     "L1 abstraction: pix_upper, pi_noprint, PiTable, prime vector, cache content are parameters of the theorems "
-    "(TopOK / EnvOK / CacheOK hypotheses); the sieve arrays of PhiCache (init_cache) are not modelled bit by bit",
+    "(TopOK / EnvOK / CacheOK hypotheses); the sieve arrays of PhiCache are modelled bit by bit and proved in PcProps/C07Cache.lean (phi_cpp_correct discharges CacheOK); pix_upper stays a named hypothesis",
 ]
 ASSUMPTIONS = [
     "pi(x) <= pix_upper(x) for x > 30719 (floating point formula x/(log x - 1.1) + 10 from the literature): named hypothesis "
@@ -280,7 +280,8 @@ def streams(ctx):
             x = rng.choice([2 * 10 ** 15, 10 ** 16, 3647040 ** 2 * 100]) + rng.randint(-2, 2)
         a = rng.choice([rng.randint(130, 260), rng.randint(50, 130), rng.randint(260, 2000)] if k % 3 else [199, 200, 130, 131])
         ops.append("phi3 %d %d %d %d" % (rng.choice([0, 16, 1] if x < 10 ** 16 else [0, 16]), x, a, P[a - 1]))
-    out.append(Stream("recurrence_cache_clamped", ops, oracle=True, model_ops=mops3, judge=judge_ok, timeout=1800,
+    out.append(Stream("recurrence_cache_clamped", ops, oracle=True, model_ops=mops3, judge=judge_ok, timeout=3600,
+                      env={"PCV_OP_TIMEOUT": "600"},       # x up to 1e18: ~20 s per op on a loaded machine
                       classify=lambda op, res: "x>=1e15"))
 
     # ---- G. closed form phi(x, a) = pi(x) - a + 1 for a >= pi(sqrt x) (judge; a = pi(sqrt x) is Legendre's formula
